@@ -149,6 +149,12 @@ pub fn eval_case(c: &Case, allowed: &features::Allowed, fd: i32) -> Outcome {
 
             // ---------------- decode direction
             for (pname, pol) in decode_policies() {
+                // an evaluation that shows the trigger of a confirmed reader finding is confirmed once
+                // (literal policy), not once per policy: each one may cost an evaluator process
+                if rb.is_some() && pname != "spec" {
+                    o.class("decode-policies-skipped(known reader finding present)");
+                    break;
+                }
                 // variants that differ only for this encoding version are skipped
                 if enc.ver == Ver::V1 && (pname == "lc4-no-sharing" || pname == "lc-by-size") {
                     continue;
@@ -290,7 +296,7 @@ pub fn main(ctx: &Ctx) -> ! {
     let strat = (case_strategy(gc, 2), any::<u8>()).boxed();
     campaign(
         ctx,
-        CampaignCfg { stream: "c10", cases: ctx.pick(1_500, 15_000), batch: 128, max_shrink: ctx.pick(600, 3000) },
+        CampaignCfg { stream: "c10", cases: ctx.pick(1_500, 12_000), batch: 128, max_shrink: ctx.pick(600, 3000) },
         &strat,
         &mut report,
         &|(g, mode): &(GenCase, u8)| realize(g, &vc, &allowed, mode % 20 < 17),
